@@ -81,8 +81,8 @@ fn real_main() {
         use props_round7 as r7;
         let p = prop.as_str();
         if ["C01", "C02"].contains(&p) { r7::interleaved_pairs(&mut ctx, p); }
-        if p == "C02" { r7::declared_payload_hash(&mut ctx, p); }
-        if ["C02", "C15"].contains(&p) { r7::absolute_form_authorities(&mut ctx, p); }
+        if p == "C02" { let _ = r7::declared_payload_hash(&mut ctx, p); }
+        if ["C02", "C15"].contains(&p) { let d = r7::absolute_form_authorities(&mut ctx, p); if p == "C15" { props_validate2::check_passthrough(&mut ctx, d); } }
         if ["C02", "C09"].contains(&p) { r7::long_paths(&mut ctx, p); }
         if ["C03", "C04", "C14"].contains(&p) { r7::authenticator_histories(&mut ctx, p); }
         if p == "C04" { r7::slow_wallclock_provider(&mut ctx, p); }
@@ -97,8 +97,8 @@ fn real_main() {
         if ["C16", "C19", "C13"].contains(&p) { r7::malformed_amz_date_beside_date(&mut ctx, p); }
         if ["C08", "C16"].contains(&p) { r7::tokens_and_damaged_dates(&mut ctx, p); }
         if ["C13", "C19"].contains(&p) { r7::many_auth_items(&mut ctx, p); }
-        if ["C15", "C08"].contains(&p) { r7::too_long_then_folded(&mut ctx, p); }
-        if ["C01", "C15"].contains(&p) { r7::declared_payload_hash(&mut ctx, p); }
+        if ["C15", "C08"].contains(&p) { let d = r7::too_long_then_folded(&mut ctx, p); if p == "C15" { props_validate2::check_passthrough(&mut ctx, d); } }
+        if ["C01", "C15"].contains(&p) { let d = r7::declared_payload_hash(&mut ctx, p); if p == "C15" { props_validate2::check_passthrough(&mut ctx, d); } }
     }
     // properties stated about the validation as a whole also need every function on the validation path to
     // correspond to its model
